@@ -171,7 +171,7 @@ claim("C02",
 claim("C04",
       "Proof (sequential) of lock containment on the real code: a live InjectorPP / Preventer holds LOCK_FUNCTION from construction to drop; every OS-visible step of installing and restoring happens while it is held; it is released afterwards and can be retaken. "
       "Schedules are discharged by the assumed contract of std::sync::Mutex (at most one guard at a time).",
-      "Assumed, not verified: std::sync::Mutex mutual exclusion under every schedule, and that some waiter eventually acquires it (liveness). Kani does not execute threads. The poisoned arm of NoPoisonMutex::lock cannot be driven under Kani (std built with panic=abort) and is covered by type only.",
+      "Assumed, not verified: std::sync::Mutex mutual exclusion under every schedule, and that some waiter eventually acquires it (liveness). Kani does not execute threads. The poisoned arm of NoPoisonMutex::lock cannot be driven under Kani (its std is built with panic=abort); it is decided by the Verus unit lock_nopoison against assumed specifications of Mutex::lock / PoisonError::into_inner: on both arms the guard of this very mutex is returned and no panic is raised.",
       level="proof")
 claim("C07",
       "Proof: for every prior value of the call-site counter and every expectation N, after the real will_execute the counter is 0 and the registered verifier is the one handed in.",
@@ -385,7 +385,7 @@ claim("C03",
 claim("C05",
       "Proof of the function-level obligations that unwinding relies on: every library-raised refusal (signature mismatch through all checked entry points, non-bool target over the enumerated signature family, checked/unchecked pairing, no memory, mprotect failure, A64 out-of-range) is raised before any OS event with code memory untouched; "
       "CallCountVerifier::drop never panics while a panic is in flight (all counts / expectations); the whole InjectorPP drop glue run under panicking()==true with unsatisfied expectations restores, releases, unlocks and raises nothing; the verdict panic is raised only after restoration.",
-      "Not decided here: the unwinding mechanism itself (Kani has none): that destructors of live values run on unwind and that a second panic aborts is Rust semantics. The poisoned arm of NoPoisonMutex::lock is covered by type only (Kani's std is panic=abort). A failed mprotect leaves the freshly mapped trampoline behind (not claimed by C05/C12).",
+      "Not decided here: the unwinding mechanism itself (Kani has none): that destructors of live values run on unwind and that a second panic aborts is Rust semantics. The poisoned arm of NoPoisonMutex::lock is decided by Verus (unit lock_nopoison) against assumed std specifications, since Kani's std is panic=abort. A failed mprotect leaves the freshly mapped trampoline behind (not claimed by C05/C12).",
       trusted_base=[TB_KANI, TB_SHIM, TB_HOOK, TB_RUSTC])
 claim("C06",
       "Proof per arm of fake! that carries `times` (28 on the pinned tree, enumerated from the source at check time): for all N, all counter values and all arguments, over two consecutive calls: admitted iff `when` holds and fewer than N matching calls came before; admitted calls are counted exactly once by exactly one atomic RMW; rejected calls are not counted and have no side effect; "
@@ -505,3 +505,7 @@ H("c02_order_async_refake2", props=["C02", "C14", "C12"], fns=_INJ_FNS + _ASYNC_
   bounded="one history: the same async function faked twice (K=2), core replaced by a tagging recorder", **_MODS_INJ)
 for _h in ("c02_order_async_refake", "c02_order_async_refake2"):
     HARNESSES[_h]["replay"] = lambda vals, verif: _replay_bin("c14_refake", [], verif)
+
+import verus_lock  # noqa: E402
+VERUS["lock_nopoison"] = dict(props=["C04", "C05"], builder=verus_lock.build, fns=[(INJ, "lock")], expect_verified=1,
+                              shared={"C04.lock.guard-of-this-mutex": ["C05"], "C05.lock.never-panics": ["C04"]})
